@@ -20,6 +20,7 @@ def validate_batch(
 ) -> dict[Any, tuple]:
     """Returns {trace id: ("ACCEPT",) | ("REJECT", event_index, clause)}; every trace gets a verdict."""
     verdicts: dict[Any, tuple] = {}
+    drift: dict[str, list] = {}
     for c0 in range(0, len(traces), chunk):
         part = traces[c0:c0 + chunk]
         f = ctx.work / f"{name}_{c0}.json"
@@ -35,9 +36,14 @@ def validate_batch(
                 verdicts.setdefault(t[1], ("ACCEPT",))
             elif t[0] == "REJECT":
                 verdicts[t[1]] = ("REJECT", t[2], t[3])
+            elif t[0] == "DRIFT":
+                # a MECHANISM clause of the trace specification failed: reported, never alarmed (R2)
+                drift.setdefault(t[2], []).append(t[1])
         ctx.add_tlc(res)
         for tr in part:
             if tr["id"] not in verdicts:
                 raise MachineryError(f"no verdict for trace {tr['id']} in {name} (see {res['outfile']})")
     ctx.traces_validated += len(traces)
+    for clause, ids in sorted(drift.items()):
+        ctx.model_drift(f"[{name}] {module}: mechanism clause '{clause}' fails on {len(set(ids))} of {len(traces)} real traces (first: trace {sorted(set(ids))[0]}); requirement clauses were still checked to the end of each trace")
     return verdicts
